@@ -5,7 +5,7 @@ from .. import gram, layers, strings
 from ..canon import canon
 from ..runner import Acc, make_classifier, seed
 from . import egram
-from .c08 import admissible
+from .c08 import admissible, FAMILIES
 
 ID = 'C16'
 LEVEL = 'exploration'
@@ -138,10 +138,11 @@ def coverage(tier, total):
     return {
         'rule': 'all strings of <= n symbols over the token-kind alphabets (%s) that satisfy the side conditions and parse '
                 'in strict mode; every L_wf document of (%s) and its variants with an attaching separator from %r before '
-                '%s group opener(s); parse-print applied three times.  distinct = distinct parseable inputs' % (
+                '%s group opener(s)%s; strings that each bring a never-seen non-ASCII character; parse-print applied three '
+                'times.  distinct = distinct parseable inputs' % (
                     ', '.join('%s n<=%d' % p for p in strings.PLAN[plan]),
                     ', '.join('%s <= %d nodes' % p for p in layers.PLAN[lp]), ATTACHING,
-                    'one' if tier == 'quick' else 'one or two'),
+                    'one' if tier == 'quick' else 'one or two', FAMILIES),
         'skipped_side_condition': int(total.extra['skipped_side_condition']),
         'strict_failures_not_judged': int(total.extra['strict_failures']),
         'representatives': gram.Names(seed()).describe(),
